@@ -18,8 +18,7 @@ var synNumbers = []string{"0", "1", "2", "10", "3.5", "০", "৪২", "১.৫"
 type synGen struct {
 	rt *rapid.T
 	// scalarStores: values stored into elements/properties are scalar
-	// expressions, so that no self-containing value can be built (C07 excludes
-	// printing such values: open finding K13)
+	// expressions, so that no self-containing value can be built
 	scalarStores bool
 }
 
